@@ -1981,6 +1981,43 @@ class Engine:
                 mm = z3.If(m.z < 0, z3.If(m.z + l > 0, m.z + l, 0), z3.If(m.z < l, m.z, l))
                 outs.append((st1, V('seq', extra={'len': mm, 'get': sq.extra['get']})))
             return outs
+        if obj.k in ('dyn', 'seq') and sl.step is None and (obj.k == 'seq' or obj.cls in ('list', 'tuple')):
+            # general lower/upper bounds with Python's clamping
+            res = [(st, [])]
+            for part in (sl.lower, sl.upper):
+                nxt = []
+                for st1, acc in res:
+                    if isinstance(acc, Raised):
+                        nxt.append((st1, acc))
+                    elif part is None:
+                        nxt.append((st1, acc + [None]))
+                    else:
+                        for st2, v in self.eval(part, st1):
+                            if isinstance(v, Raised):
+                                nxt.append((st2, v))
+                            elif v.k != 'int':
+                                raise Unsupported(node, 'slice bound %r' % (v,))
+                            else:
+                                nxt.append((st2, acc + [v.z]))
+                res = nxt
+            outs = []
+            for st1, acc in res:
+                if isinstance(acc, Raised):
+                    outs.append((st1, acc))
+                    continue
+                sq = self.as_seq(obj, st1)
+                l = sq.extra['len']
+
+                def norm(x, l=l):
+                    return z3.If(x < 0, z3.If(x + l > 0, x + l, 0), z3.If(x < l, x, l))
+                lo = z3.IntVal(0) if acc[0] is None else norm(acc[0])
+                hi = l if acc[1] is None else norm(acc[1])
+                g = sq.extra.get('get')
+                outs.append((st1, V('seq', extra={
+                    'len': z3.If(hi - lo > 0, hi - lo, 0), 'slice_of': (sq.extra, lo),
+                    'get': (None if g is None else
+                            (lambda eng_, i, st_, _g=g, _lo=lo: _g(eng_, i + _lo, st_)))})))
+            return outs
         if obj.k == 'bytes' and sl.step is None:
             L = self.bytes_len(obj)
             res = [(st, [])]
